@@ -108,6 +108,18 @@ def checkSameTime (dynTD : Bool) (st : SpecSt) (i : Nat) (e : OEv) : SpecSt :=
     | none => st'
   | _, _ => st
 
+/-- `failed_read_keeps_cache`: a read/force that ends in the generator's own exception changes no
+cached value / time stamp / saved stack -/
+def checkFailedRead (st : SpecSt) (i : Nat) (e : OEv) : SpecSt :=
+  if !(isRead e.tag || isForce e.tag) then st else
+  match e.res with
+  | .raised x =>
+    if x == "StopIteration" || x == "KeyError" then
+      (if e.caches == st.prev.caches then { st with checked := st.checked + 1 }
+       else fail st s!"event {i} ({e.tag}): the generator raised {x} but a cached value / time stamp changed")
+    else st
+  | _ => st
+
 /-- `inspect_never_advances` -/
 def checkInspect (st : SpecSt) (i : Nat) (e : OEv) : SpecSt :=
   if !isInspect e.tag then st else
@@ -176,6 +188,7 @@ def specStep (dynTD : Bool) (acc : SpecSt × Nat) (e : OEv) : SpecSt × Nat :=
   let st := checkTd dynTD st i e
   let st := checkRepeat dynTD st i e
   let st := checkSameTime dynTD st i e
+  let st := checkFailedRead st i e
   let st := checkInspect st i e
   let st := checkCtx st i e
   let st := checkPushPop st i e
